@@ -33,6 +33,8 @@ type G3Case struct {
 	V4    string `json:"v4"`
 	V6    string `json:"v6"`
 	Raw   string `json:"raw"`
+	// the raw file contains a line that is no known command: the parser has to reject the file
+	ExpectParseErr bool `json:"expectParseErr,omitempty"`
 }
 
 const (
@@ -360,6 +362,407 @@ func g3Oracle(r g3Real) []violation {
 	return vs
 }
 
+// ---------------------------------------------------------------- oracle over the generator's TEXT lines
+//
+// Independent of the parser: the lines are read from the generated text, brought into the normal form the
+// command tables of asa/cmd-info.go and ios/cmd-info.go describe ($NAME, $SEQ, $REF), and looked up in the
+// merged table.  "Every line of every part is in the merged result (in the object a referencing line names),
+// or an error / a warning names it."
+
+type g3TL struct {
+	top    bool
+	text   string
+	app    bool
+	parent int // index of the toplevel line of a subcommand
+}
+
+func g3TextLines(text string) []g3TL {
+	var out []g3TL
+	app := false
+	parent := -1
+	for _, l := range strings.Split(text, "\n") {
+		t := strings.TrimRight(l, " \t\r")
+		if t == "" || t[0] == '!' {
+			continue
+		}
+		if t == "[APPEND]" {
+			app = true
+			continue
+		}
+		if t[0] != ' ' {
+			parent = len(out)
+			out = append(out, g3TL{top: true, text: t, app: app, parent: -1})
+		} else {
+			out = append(out, g3TL{top: false, text: strings.TrimSpace(t), app: app, parent: parent})
+		}
+	}
+	return out
+}
+
+type g3Sk struct {
+	prefix string      // lookup prefix of the (parent) toplevel command
+	skel   string      // text with $NAME / $SEQ / $REF
+	name   string      // name of the object the line belongs to
+	refs   [][2]string // referenced (prefix, name) in the order of the $REF places
+}
+
+// g3Skel: normal form of one line. ok=false: a line this oracle does not know (generator bug).
+func g3Skel(model string, parentTop string, line string, isSub bool) (g3Sk, bool) {
+	w := strings.Fields(line)
+	join := func(l []string) string { return strings.Join(l, " ") }
+	if isSub {
+		p, ok := g3Skel(model, "", parentTop, false)
+		if !ok {
+			return g3Sk{}, false
+		}
+		sk := g3Sk{prefix: p.prefix, name: p.name, skel: line}
+		ref := func(pfx string, i int) {
+			sk.refs = append(sk.refs, [2]string{pfx, w[i]})
+			w[i] = "$REF"
+			sk.skel = join(w)
+		}
+		switch {
+		case len(w) == 3 && w[0] == "default-group-policy":
+			return g3Sk{}, false
+		case len(w) == 2 && w[0] == "default-group-policy":
+			ref("group-policy", 1)
+		case len(w) == 3 && w[0] == "vpn-filter" && w[1] == "value":
+			ref("access-list", 2)
+		case len(w) == 3 && w[0] == "address-pools" && w[1] == "value":
+			ref("ip local pool", 2)
+		case len(w) == 2 && w[0] == "vpn-group-policy":
+			ref("group-policy", 1)
+		case len(w) == 4 && w[0] == "ip" && w[1] == "access-group":
+			ref("ip access-list extended", 2)
+		case len(w) == 5 && w[0] == "set" && w[1] == "ip" && w[2] == "access-group":
+			ref("ip access-list extended", 3)
+		case len(w) == 3 && w[0] == "crypto" && w[1] == "map" && p.prefix == "interface":
+			ref("crypto map", 2)
+		}
+		return sk, true
+	}
+	switch {
+	case w[0] == "route" || (len(w) > 1 && w[0] == "ipv6" && w[1] == "route"):
+		pfx := "route"
+		if w[0] == "ipv6" {
+			pfx = "ipv6 route"
+		}
+		return g3Sk{prefix: pfx, skel: line}, true
+	case len(w) > 1 && w[0] == "ip" && w[1] == "route":
+		return g3Sk{prefix: "ip route", skel: line}, true
+	case len(w) == 3 && w[0] == "object-group":
+		return g3Sk{prefix: "object-group", skel: "object-group " + w[1] + " $NAME", name: w[2]}, true
+	case len(w) > 3 && w[0] == "access-list":
+		sk := g3Sk{prefix: "access-list", name: w[1]}
+		w[1] = "$NAME"
+		for i := 0; i+1 < len(w); i++ {
+			if w[i] == "object-group" {
+				sk.refs = append(sk.refs, [2]string{"object-group", w[i+1]})
+				w[i+1] = "$REF"
+			}
+		}
+		sk.skel = join(w)
+		return sk, true
+	case len(w) == 5 && w[0] == "access-group":
+		sk := g3Sk{prefix: "access-group", refs: [][2]string{{"access-list", w[1]}}}
+		w[1] = "$REF"
+		sk.skel = join(w)
+		return sk, true
+	case len(w) > 5 && w[0] == "crypto" && w[1] == "ipsec" && w[3] == "transform-set":
+		sk := g3Sk{prefix: "crypto ipsec " + w[2] + " transform-set", name: w[4]}
+		w[4] = "$NAME"
+		sk.skel = join(w)
+		return sk, true
+	case len(w) == 5 && w[0] == "crypto" && w[1] == "ipsec" && w[3] == "ipsec-proposal":
+		return g3Sk{prefix: "crypto ipsec ikev2 ipsec-proposal", name: w[4], skel: "crypto ipsec ikev2 ipsec-proposal $NAME"}, true
+	case len(w) == 5 && w[0] == "crypto" && w[1] == "map" && w[3] == "interface":
+		sk := g3Sk{prefix: "crypto map interface", refs: [][2]string{{"crypto map", w[2]}}}
+		w[2] = "$REF"
+		sk.skel = join(w)
+		return sk, true
+	case len(w) >= 5 && w[0] == "crypto" && (w[1] == "map" || w[1] == "dynamic-map"):
+		sk := g3Sk{prefix: "crypto " + w[1], name: w[2]}
+		w[2], w[3] = "$NAME", "$SEQ"
+		switch {
+		case len(w) == 7 && w[4] == "match" && w[5] == "address":
+			sk.refs = append(sk.refs, [2]string{"access-list", w[6]})
+			w[6] = "$REF"
+		case len(w) == 7 && w[4] == "ipsec-isakmp" && w[5] == "dynamic":
+			sk.refs = append(sk.refs, [2]string{"crypto dynamic-map", w[6]})
+			w[6] = "$REF"
+		case len(w) >= 8 && w[4] == "set" && w[6] == "transform-set":
+			for i := 7; i < len(w); i++ {
+				sk.refs = append(sk.refs, [2]string{"crypto ipsec " + w[5] + " transform-set", w[i]})
+				w[i] = "$REF"
+			}
+		case len(w) == 7 && w[4] == "set" && w[5] == "pfs" && w[6] == "group14":
+			w = w[:6] // the default value is stripped by the parser
+		}
+		sk.skel = join(w)
+		return sk, true
+	case len(w) > 4 && w[0] == "ip" && w[1] == "local" && w[2] == "pool":
+		sk := g3Sk{prefix: "ip local pool", name: w[3]}
+		w[3] = "$NAME"
+		sk.skel = join(w)
+		return sk, true
+	case len(w) == 3 && (w[0] == "group-policy" || w[0] == "username"):
+		sk := g3Sk{prefix: w[0], name: w[1]}
+		w[1] = "$NAME"
+		sk.skel = join(w)
+		return sk, true
+	case len(w) >= 3 && w[0] == "tunnel-group" && w[1] != "":
+		sk := g3Sk{prefix: "tunnel-group", name: w[1]}
+		w[1] = "$NAME"
+		sk.skel = join(w)
+		return sk, true
+	case len(w) == 3 && w[0] == "tunnel-group-map":
+		sk := g3Sk{prefix: "tunnel-group-map", refs: [][2]string{{"tunnel-group", w[2]}}}
+		w[2] = "$REF"
+		sk.skel = join(w)
+		return sk, true
+	case len(w) == 4 && w[0] == "ip" && w[1] == "access-list" && w[2] == "extended":
+		return g3Sk{prefix: "ip access-list extended", name: w[3], skel: "ip access-list extended $NAME"}, true
+	case len(w) == 2 && w[0] == "interface":
+		return g3Sk{prefix: "interface", skel: line}, true
+	}
+	return g3Sk{}, false
+}
+
+type g3Text struct {
+	tl []g3TL
+	sk []g3Sk
+	ok []bool
+}
+
+func g3ReadText(model, text string) g3Text {
+	t := g3Text{tl: g3TextLines(text)}
+	for _, l := range t.tl {
+		parent := ""
+		if !l.top && l.parent >= 0 {
+			parent = t.tl[l.parent].text
+		}
+		sk, ok := g3Skel(model, parent, l.text, !l.top)
+		t.sk = append(t.sk, sk)
+		t.ok = append(t.ok, ok)
+	}
+	return t
+}
+
+// g3TextOracle: the checks on text level. `fin` is the merged table, `warned` the warnings.
+func g3TextOracle(c G3Case, fin *g3Table, warned map[string]bool, count func(string)) []violation {
+	var vs []violation
+	// what the result holds
+	top := map[string]map[string][]cisco.VerifC18Cmd{} // prefix -> skeleton -> commands
+	subs := map[string]map[string][]cisco.VerifC18Cmd{} // prefix -> skeleton of subcommand -> subcommands
+	obj := map[string][]cisco.VerifC18Cmd{}             // prefix US key -> commands
+	for _, cm := range fin.cmds {
+		if top[cm.Prefix] == nil {
+			top[cm.Prefix], subs[cm.Prefix] = map[string][]cisco.VerifC18Cmd{}, map[string][]cisco.VerifC18Cmd{}
+		}
+		top[cm.Prefix][cm.Parsed] = append(top[cm.Prefix][cm.Parsed], cm)
+		obj[cm.Prefix+cUS+cm.Key] = append(obj[cm.Prefix+cUS+cm.Key], cm)
+		for _, sc := range cm.Sub {
+			subs[cm.Prefix][sc.Parsed] = append(subs[cm.Prefix][sc.Parsed], sc)
+		}
+	}
+	objHas := func(pfx, key string, skTop bool, skel string) bool {
+		for _, cm := range obj[pfx+cUS+key] {
+			if skTop && cm.Parsed == skel {
+				return true
+			}
+			if !skTop {
+				for _, sc := range cm.Sub {
+					if sc.Parsed == skel {
+						return true
+					}
+				}
+			}
+		}
+		return false
+	}
+	parts := []g3Text{g3ReadText(c.Model, c.V4), g3ReadText(c.Model, c.V6), g3ReadText(c.Model, c.Raw)}
+	rawT := parts[2]
+	// keys of raw / IPv6 crypto commands: they may replace a Netspoc command (documented)
+	repl := map[string]bool{}
+	for _, pi := range []int{1, 2} {
+		for i, sk := range parts[pi].sk {
+			if parts[pi].ok[i] && parts[pi].tl[i].top && (sk.prefix == "crypto map" || sk.prefix == "crypto dynamic-map") {
+				repl[sk.prefix+cUS+g3CryptoKey(sk.skel)] = true
+			}
+		}
+	}
+	present := func(tl g3TL, sk g3Sk) bool {
+		if tl.top {
+			return len(top[sk.prefix][sk.skel]) > 0
+		}
+		return len(subs[sk.prefix][sk.skel]) > 0
+	}
+	for pi, pt := range parts {
+		for i, tl := range pt.tl {
+			if !pt.ok[i] {
+				count("g3:text-line-unknown-to-oracle")
+				continue
+			}
+			sk := pt.sk[i]
+			count("g3:text-lines-judged")
+			if present(tl, sk) {
+				continue
+			}
+			if pi < 2 {
+				if tl.top && repl[sk.prefix+cUS+g3CryptoKey(sk.skel)] {
+					continue
+				}
+				if sk.prefix == "ip access-list extended" && tl.top {
+					continue // the header comes from the raw block
+				}
+				vs = append(vs, violation{"netspoc_line_missing_in_result", fmt.Sprintf("line of part %d missing: %q", pi, tl.text)})
+				continue
+			}
+			if sk.name != "" && warned["Ignoring unused '"+sk.prefix+" "+sk.name+"' in raw"] {
+				continue
+			}
+			vs = append(vs, violation{"raw_line_missing_in_result", fmt.Sprintf("raw line neither merged nor named by a warning: %q", tl.text)})
+		}
+	}
+	// raw lines with references: the object named in the raw file is found, complete, under the name the
+	// corresponding line of the result names
+	rawObj := map[string][]int{} // prefix US name -> indices of the raw lines of that object (toplevel and sub)
+	for i, tl := range rawT.tl {
+		if !rawT.ok[i] || rawT.sk[i].name == "" {
+			continue
+		}
+		k := rawT.sk[i].prefix + cUS + rawT.sk[i].name
+		rawObj[k] = append(rawObj[k], i)
+		_ = tl
+	}
+	for i, tl := range rawT.tl {
+		if !rawT.ok[i] || len(rawT.sk[i].refs) == 0 {
+			continue
+		}
+		sk := rawT.sk[i]
+		if sk.name != "" && warned["Ignoring unused '"+sk.prefix+" "+sk.name+"' in raw"] {
+			continue // the referencing object itself is reported as unused
+		}
+		var cands []cisco.VerifC18Cmd
+		if tl.top {
+			cands = top[sk.prefix][sk.skel]
+		} else {
+			cands = subs[sk.prefix][sk.skel]
+		}
+		if len(cands) == 0 {
+			continue // reported above
+		}
+		for ri, ref := range sk.refs {
+			lines := rawObj[ref[0]+cUS+ref[1]]
+			if len(lines) == 0 {
+				continue // the raw file does not define it
+			}
+			landed := false
+			for _, cand := range cands {
+				if ri >= len(cand.Ref) {
+					continue
+				}
+				all := true
+				for _, li := range lines {
+					if !objHas(ref[0], cand.Ref[ri], rawT.tl[li].top, rawT.sk[li].skel) {
+						all = false
+					}
+				}
+				landed = landed || all
+			}
+			count("g3:references-followed")
+			if !landed {
+				vs = append(vs, violation{"raw_object_not_under_referenced_name",
+					fmt.Sprintf("%q names %s %s, but no object the result references at that place holds all its lines", tl.text, ref[0], ref[1])})
+			}
+		}
+	}
+	// placement laws of ACLs, from the text alone
+	aclPrefix, dev := "access-list", "asa"
+	if c.Model == "IOS" {
+		aclPrefix, dev = "ip access-list extended", "ios"
+	}
+	kindOf := func(skel string) string {
+		switch {
+		case dev == "asa" && skel == "access-list $NAME extended deny ip any6 any6":
+			return "6"
+		case dev == "asa" && strings.Contains(skel, "$NAME extended permit"):
+			return "p"
+		case dev == "ios" && strings.HasPrefix(skel, "permit "):
+			return "p"
+		}
+		return "d"
+	}
+	for key := range obj {
+		pfx, name, _ := strings.Cut(key, cUS)
+		if pfx != aclPrefix {
+			continue
+		}
+		var res []string
+		for _, cm := range obj[key] {
+			if dev == "asa" {
+				res = append(res, cm.Parsed)
+			} else {
+				for _, sc := range cm.Sub {
+					res = append(res, sc.Parsed)
+				}
+			}
+		}
+		inRes := map[string]int{}
+		for _, r := range res {
+			inRes[r]++
+		}
+		ids := map[string]int{}
+		dupl := false
+		var srcs [3][]Line
+		multi := false
+		for pi, pt := range parts {
+			names := map[string]bool{}
+			for i, tl := range pt.tl {
+				if !pt.ok[i] || pt.sk[i].prefix != aclPrefix || (dev == "asa") != tl.top {
+					continue
+				}
+				sk := pt.sk[i]
+				if inRes[sk.skel] == 0 {
+					continue
+				}
+				// a line with the same text in another ACL of that part does not belong here: take the ACL whose lines all are here
+				allHere := true
+				for j, tj := range pt.tl {
+					if pt.ok[j] && pt.sk[j].prefix == aclPrefix && pt.sk[j].name == sk.name && (dev == "asa") == tj.top && inRes[pt.sk[j].skel] == 0 {
+						allHere = false
+					}
+				}
+				if !allHere {
+					continue
+				}
+				names[sk.name] = true
+				if _, seen := ids[sk.skel]; seen {
+					dupl = true
+				}
+				ids[sk.skel] = len(ids) + 1
+				srcs[pi] = append(srcs[pi], Line{ID: ids[sk.skel], Kind: kindOf(sk.skel), App: tl.app && pi == 2, Known: true})
+			}
+			multi = multi || len(names) > 1
+		}
+		if dupl || multi {
+			count("g3:acl-law-skipped-equal-lines-or-two-sources")
+			continue
+		}
+		var toks []string
+		for _, r := range res {
+			if kindOf(r) == "6" {
+				toks = append(toks, "any6")
+			} else {
+				toks = append(toks, strconv.Itoa(ids[r]))
+			}
+		}
+		count("g3:acl-laws-judged")
+		vs = append(vs, checkList(dev, toks, srcs[0], srcs[1], srcs[2], c.Model+" ACL "+name+" (text)")...)
+	}
+	return vs
+}
+
 // ---------------------------------------------------------------- generator
 
 type g3Gen struct{ r *RNG }
@@ -513,7 +916,7 @@ func (g *g3Gen) genASA() G3Case {
 			}
 			add(&raw, fmt.Sprintf("crypto map %s %d set peer %s", mapName, seq, peer))
 			if r.Chance(60) {
-				acl := g.pick("RCA", "RCA", "CA0")
+				acl := "RCA"
 				if !usedACL || r.Chance(15) {
 					if !usedACL {
 						add(&raw, g.aclLines(acl, 1+r.Intn(2), false, nil, false)...)
@@ -668,6 +1071,11 @@ func (g *g3Gen) genASA() G3Case {
 	if r.Chance(8) {
 		c.V4 = ""
 	}
+	if r.Chance(3) {
+		// a line that is no known command: the raw parser has to reject the file
+		c.Raw = g.pick("unexpected foo\n", "access-lst X extended permit ip any4 any4\n", "crypto mapp M 1 set peer 1.2.3.4\n") + c.Raw
+		c.ExpectParseErr = true
+	}
 	return c
 }
 
@@ -729,10 +1137,11 @@ func (g *g3Gen) genIOS() G3Case {
 	}
 	if r.Chance(30) {
 		acl(&raw, "RCA", 1, false)
+		cmName := g.pick("M", "M", "RM")
 		if r.Chance(50) {
-			add(&raw, "interface Ethernet0", " crypto map "+g.pick("M", "M", "RM"))
+			add(&raw, "interface Ethernet0", " crypto map "+cmName)
 		}
-		add(&raw, fmt.Sprintf("crypto map %s %d ipsec-isakmp", g.pick("M", "RM"), 10+10*r.Intn(2)),
+		add(&raw, fmt.Sprintf("crypto map %s %d ipsec-isakmp", cmName, 10+10*r.Intn(2)),
 			" set peer "+g.pick("1.2.3.4", "1.2.3.4", "1.2.3.5"), " set ip access-group RCA "+g.pick("in", "in", "out"))
 	}
 	if r.Chance(15) {
@@ -748,7 +1157,12 @@ func (g *g3Gen) genIOS() G3Case {
 		}
 		return strings.Join(l, "\n") + "\n"
 	}
-	return G3Case{Model: "IOS", V4: join(v4), V6: join(v6), Raw: join(raw)}
+	c := G3Case{Model: "IOS", V4: join(v4), V6: join(v6), Raw: join(raw)}
+	if r.Chance(3) {
+		c.Raw = g.pick("unexpected foo\n", "ip acces-list extended X\n") + c.Raw
+		c.ExpectParseErr = true
+	}
+	return c
 }
 
 func g3Corpus() []G3Case {
@@ -790,18 +1204,39 @@ func g3Corpus() []G3Case {
 // ---------------------------------------------------------------- stream
 
 func runCisco3(ctx *Ctx, res *Result, drv *Nadrv) {
+	total, judged, nUnmodelled := 0, 0, 0
 	runCase := func(c G3Case) {
 		r := g3Run(c)
 		res.Count("g3:model:" + c.Model)
-		if r.stages["raw"] == nil && r.perr != "" {
+		total++
+		fail := func(pred, what string) {
+			sig, name := sigOf(pred, map[string]any{"backend": strings.ToLower(c.Model), "stream": "cisco3"})
+			res.Count("oracle:" + name)
+			res.Fail(sig, what, map[string]any{"g3": c})
+		}
+		canonIn := c.Model + "\n" + c.V4 + "\n--\n" + c.V6 + "\n--\n" + c.Raw
+		if r.perr != "" && r.stages["v4+v6+raw"] == nil && r.panicM == "" && !r.aborted {
+			// a file was rejected while reading: judged from the generator's intention, never skipped
 			res.Count("g3:parse-error-outside-merge")
+			res.Eval(canonIn, false)
 			if os.Getenv("VERIF_C18_DEBUG") != "" {
 				fmt.Fprintln(os.Stderr, "PARSE-ERR:", r.perr)
 			}
+			if c.ExpectParseErr && strings.Contains(r.perr, "Unexpected command") {
+				res.Count("g3:unknown-command-rejected-as-specified")
+				judged++
+			} else {
+				fail("generated_input_rejected_by_parser", "a file the generator wrote from known commands only is rejected: "+r.perr)
+			}
+			return
+		}
+		if c.ExpectParseErr {
+			fail("raw_unknown_command_not_reported", "raw file with a line that is no known command is accepted")
 			return
 		}
 		if r.stages["v4"] == nil {
 			res.Count("g3:no-stage")
+			fail("no_configuration_observed", "loadSpoc showed no parsed configuration: "+r.stderr)
 			return
 		}
 		impl := r.canon()
@@ -826,22 +1261,32 @@ func runCisco3(ctx *Ctx, res *Result, drv *Nadrv) {
 			kind += ":" + out[1]
 		}
 		res.Count("g3:outcome:" + kind)
-		canon := c.Model + "\n" + c.V4 + "\n--\n" + c.V6 + "\n--\n" + c.Raw
-		res.Eval(canon, len(prefixes) >= 3)
+		res.Eval(canonIn, len(prefixes) >= 3)
 		res.TracesVsImpl++
-		if model == "err unmodelled" {
+		unmodelled := model == "err unmodelled"
+		if unmodelled {
+			// no model answer for this case; the oracles judge it all the same
 			res.Count("g3:unmodelled-second-read-of-mutated-ipv6-object")
-			return
+			nUnmodelled++
 		}
 		if os.Getenv("VERIF_C18_DEBUG") == "2" && strings.HasPrefix(impl, "ok") {
 			fmt.Fprintln(os.Stderr, "CASE raw:\n"+c.Raw+"IMPL: "+g3Show(impl)+"\n")
 		}
-		if impl != model {
+		if impl != model && !unmodelled {
 			res.Disagree("c18 cisco MergeSpoc (general model)", c, g3Show(impl), g3Show(model))
 		}
 		for _, v := range g3Oracle(r) {
-			res.Count("oracle:" + v.pred)
-			res.Fail(map[string]any{"pred": v.pred, "backend": strings.ToLower(c.Model), "stream": "cisco3"}, v.what, map[string]any{"g3": c})
+			fail(v.pred, v.what)
+		}
+		if fin := r.stages["v4+v6+raw"]; fin != nil && !r.aborted && r.panicM == "" {
+			judged++
+			warned := map[string]bool{}
+			for _, m := range g3ReWarning.FindAllStringSubmatch(r.stderr, -1) {
+				warned[m[1]] = true
+			}
+			for _, v := range g3TextOracle(c, fin, warned, res.Count) {
+				fail(v.pred, v.what)
+			}
 		}
 	}
 	if ctx.Replay != "" {
@@ -870,4 +1315,9 @@ func runCisco3(ctx *Ctx, res *Result, drv *Nadrv) {
 		}
 	}
 	_ = sort.Strings
+	// floors: most cases must reach the oracles; the model must answer nearly all of them
+	if total > 100 && (judged*2 < total || nUnmodelled*20 > total) {
+		res.Disagree("c18 floor: too few cisco3 cases judged", nil,
+			fmt.Sprintf("%d of %d cases end with a merged table, %d without model answer", judged, total, nUnmodelled), "at least half judged, at most 5% unmodelled")
+	}
 }
